@@ -430,7 +430,18 @@ func c15Steady(c *rt.CaseResult, seed int64, idx int, scratch string, mode dbx.M
 					tx = nil
 				case x < 45:
 					kind = "set"
-					st.Set(ctxBg, key, seqrun.Content(tag, 20+rng.Intn(3000)))
+					// the value is the caller's memory again once Set has returned (also when it
+					// returned because its context ended): it is scribbled over right away. Faulty
+					// runs use values large enough for the context to end during the call
+					n := 20 + rng.Intn(3000)
+					if faulty && i%16 == 0 {
+						n = 2 << 20
+					}
+					val := seqrun.Content(tag, n)
+					st.Set(ctxBg, key, val)
+					for j := 0; j < len(val); j += 512 {
+						val[j] = '#'
+					}
 				case x < 50:
 					kind = "create"
 					if f, err := st.Create(ctxBg, key); err == nil {
